@@ -4,6 +4,8 @@ mapping inserted in a different order per variant; one stateful TLC run requires
 import json
 import os
 import random
+
+from ..model import M, S
 import subprocess
 import sys
 
@@ -83,8 +85,14 @@ def gen_calls(rng, thorough):
         calls.append({"call": n, "family": fam, "case": case})
         n += 1
 
-    for _ in range(400 if thorough else 70):
-        add("c05", c05.gen_case(rng, n, ev="FaceCorner", force_both=True, maxelems=200))
+    for k5 in range(400 if thorough else 70):
+        c = c05.gen_case(rng, n, ev="FaceCorner", force_both=True, maxelems=200)
+        if k5 % 3 == 0:
+            # the one pair of rules whose basic padding does not commute: 'fill' on both axes with different values
+            # (the corner cells on open edges then tell which axis was padded last)
+            c["args"]["boundary"] = S("fill")
+            c["args"]["fill_value"] = M([["a1", 2], ["a2", 7]] + ([["a3", -3]] if any(a["name"] == "a3" for a in c["grid"]["axes"]) else []))
+        add("c05", c)
     k = 0
     while k < (300 if thorough else 50):
         c = c10.gen_getmetric(rng, n)
